@@ -33,6 +33,10 @@ pub struct ModClass { p: usize }
 impl ModClass {
   pub uninterp spec fn fields(&self) -> Set<LyStr>;
   #[verifier::external_body] pub fn add_field(&mut self, name: LyStr) ensures final(self).fields() == old(self).fields().insert(name) { }
+  /// the ordinal of a field; nothing is assumed about which ordinal a field gets
+  pub uninterp spec fn field_index(&self, name: LyStr) -> u16;
+  #[verifier::external_body] pub fn get_field_index(&self, name: &LyStr) -> (r: Option<u16>)
+    ensures r == (if self.fields().contains(*name) { Some(self.field_index(*name)) } else { None }) { unimplemented!() }
 }
 
 /// projection of Module (R10): id, path and sub-modules are not touched by the symbol operations
